@@ -233,4 +233,94 @@ theorem C16_sphere_row_phys (d : VecV) (x y : ArrV) (rest : List ArrV) (rad rad'
       have := mul_le_mul_of_nonneg_right hc' (le_of_lt hff)
       nlinarith [this]
 
+/-! ### the box mask over all components -/
+
+/-- `&` of the per-component masks, as `extract_box` accumulates it: row `i` of the result is the conjunction of row `i` of
+    every component's mask (all masks of one length) -/
+theorem foldl_and_getD : ∀ (rest : List (List Bool)) (m : List Bool) (i : Nat),
+    (∀ m' ∈ rest, m'.length = m.length) →
+    (rest.foldl (fun acc m' => List.zipWith (· && ·) acc m') m).getD i false =
+      (m.getD i false && rest.all (fun m' => m'.getD i false)) := by
+  intro rest
+  induction rest with
+  | nil => intro m i _; simp
+  | cons r rs ih =>
+    intro m i hlen
+    rw [List.foldl_cons, ih]
+    · have hr : r.length = m.length := hlen r (by simp)
+      have hz : (List.zipWith (· && ·) m r).getD i false = (m.getD i false && r.getD i false) := by
+        simp only [List.getD_eq_getElem?_getD, List.getElem?_zipWith]
+        cases hm : m[i]? with
+        | none =>
+          have : r[i]? = none := by
+            rw [List.getElem?_eq_none_iff] at hm ⊢; omega
+          simp [this]
+        | some a =>
+          cases hr' : r[i]? with
+          | none =>
+            have : m[i]? = none := by
+              rw [List.getElem?_eq_none_iff] at hr' ⊢; omega
+            rw [this] at hm; cases hm
+          | some b => simp
+      rw [hz]
+      simp [Bool.and_assoc]
+    · intro m' hm'
+      rw [List.length_zipWith, hlen r (by simp), Nat.min_self]
+      exact hlen m' (by simp [hm'])
+
+open Osyris.Subdomain in
+theorem mapM_spec {α β : Type} (f : α → Res β) : ∀ (l : List α) (out : List β), l.mapM f = .ok out →
+    out.length = l.length ∧ ∀ k (hk : k < l.length), ∃ b, f (l[k]) = .ok b ∧ out[k]? = some b := by
+  intro l
+  induction l with
+  | nil => intro out h; simp [List.mapM_nil, pure, Except.pure] at h; subst h; simp
+  | cons a as ih =>
+    intro out h
+    rw [List.mapM_cons] at h
+    cases ha : f a with
+    | error e => rw [ha] at h; simp [bind, Except.bind] at h
+    | ok b =>
+      rw [ha] at h
+      cases hr : as.mapM f with
+      | error e => rw [hr] at h; simp [bind, Except.bind] at h
+      | ok rest =>
+        rw [hr] at h
+        simp only [bind, Except.bind, pure, Except.pure, Except.ok.injEq] at h
+        subst h
+        obtain ⟨hl, hk⟩ := ih rest hr
+        refine ⟨by simp [hl], ?_⟩
+        intro k hk'
+        cases k with
+        | zero => exact ⟨b, by simpa using ha, by simp⟩
+        | succ k =>
+          obtain ⟨b', h1, h2⟩ := hk k (by simpa using hk')
+          exact ⟨b', by simpa using h1, by simpa using h2⟩
+
+open Osyris.Subdomain in
+/-- **C16 (box mask, all components)**: whenever `extract_box` computes a mask, it is the row-wise conjunction of the
+    one-component masks (`compMask`: offset within half the size given for that axis, in the component's unit — the test
+    `C16_box_row_phys` reads in physical terms), one per existing component of the centred positions -/
+theorem C16_box_mask_rows (T : Tables) (pos origin : VecV) (sizes : List ArrV) (m : List Bool)
+    (h : boxMask T pos origin sizes = .ok m) :
+    ∃ (d : VecV) (per : List (List Bool)), pos.binaryOp T .sub (.vec origin) = .ok d ∧
+      (List.zip d.comps sizes).mapM compMask = .ok per ∧ per ≠ [] ∧
+      ((∀ q ∈ per, ∀ q' ∈ per, q.length = q'.length) → ∀ i, m.getD i false = per.all (fun q => q.getD i false)) := by
+  unfold boxMask at h
+  cases hd : pos.binaryOp T .sub (.vec origin) with
+  | error e => simp [hd, bind, Except.bind] at h
+  | ok d =>
+    cases hp : (List.zip d.comps sizes).mapM compMask with
+    | error e => simp [hd, hp, bind, Except.bind] at h
+    | ok per =>
+      simp only [hd, hp, bind, Except.bind] at h
+      cases per with
+      | nil => simp at h
+      | cons q rest =>
+        simp only [pure, Except.pure, Except.ok.injEq] at h
+        subst h
+        refine ⟨d, q :: rest, rfl, hp, by simp, ?_⟩
+        intro hlen i
+        rw [foldl_and_getD rest q i (fun m' hm' => hlen m' (by simp [hm']) q (by simp))]
+        simp
+
 end Osyris.C16
